@@ -247,7 +247,11 @@ def random_history(rng, cfg, n_ops, wide, aliases=True):
         elif op == 'tagindex':
             yield (gen.pick(rng, ['create_tag_index', 'drop_tag_index']), (), {})
         elif op == 'reset_cull':
-            yield ('reset', ('cull_limit', gen.pick(rng, [0, 1, 10])), {})
+            if rng.random() < 0.6:
+                yield ('reset', ('cull_limit', gen.pick(rng, [0, 1, 10])), {})
+            else:
+                # the storage threshold moves: earlier values stay where they are, later ones follow the new one
+                yield ('reset', ('disk_min_file_size', gen.pick(rng, [0, 1, T, T + 7, 4 * T + 100, 2**15])), {})
         elif op == 'evict':
             yield (op, (tag(),), {})
         elif op == 'stats':
